@@ -1042,6 +1042,87 @@ def rule_validator_types(ctx: Ctx, rule: str = "validator-types") -> None:
             ctx.ok(rule, val.key, construct)
 
 
+def rule_validator_refuses(ctx: Ctx, rule: str = "validator-types") -> None:
+    """Every kind test of the two validators refuses: when an `isinstance` test of validate_contract_dict or
+    _check_clause fails (all the others holding), every path ends in a documented error.  A test whose failing side
+    falls through accepts the ill-typed field (a string read as a list of characters, a list read as a clause)."""
+    from .pathsim import Sim, const, walk
+
+    prog = ctx.prog
+    exc = ExcTable(prog)
+    total = 0
+    for key in ("serializer.validate_contract_dict", "serializer._check_clause"):
+        fi = prog.func(key)
+        # the distinct isinstance tests met on any path
+        seen: Dict[str, Any] = {}
+
+        def collect(v):
+            if isinstance(v, tuple) and v and v[0] == "call" and v[1] == "isinstance":
+                seen.setdefault(repr((v[2][0], _type_names(v[2][1]))), (v[2][0], _type_names(v[2][1])))
+            return None
+
+        try:
+            for _p in Sim(prog, fi, assume=lambda v: (collect(v), const(True) if isinstance(v, tuple) and v and v[0] == "call" and v[1] == "isinstance" else None)[1], loop_iters=(1,)).paths():
+                pass
+        except AnalysisError as ex:
+            ctx.cannot_decide(rule, key, "%s: kind tests refuse" % fi.name, str(ex))
+            continue
+        for tag, (subject, types) in sorted(seen.items()):
+            total += 1
+            construct = "%s: a value failing isinstance(%s, %s) is refused with a documented error" % (fi.name, show_v(subject), "/".join(types) or "?")
+
+            def is_target(v, subject=subject, types=types) -> bool:
+                return isinstance(v, tuple) and bool(v) and v[0] == "call" and v[1] == "isinstance" and v[2][0] == subject and _type_names(v[2][1]) == types
+
+            def assume(v, is_target=is_target):
+                if isinstance(v, tuple) and v and v[0] == "call" and v[1] == "isinstance" and not is_target(v):
+                    return const(True)
+                return None  # the test under scrutiny is left open: both outcomes are explored
+
+            bad = None
+            reached = False
+            for p in Sim(prog, fi, assume=assume, loop_iters=(1,)).paths():
+                failed = False
+                for e in p.events:
+                    if e["kind"] != "branch":
+                        continue
+                    t, neg = e["test"], False
+                    while isinstance(t, tuple) and t and t[0] == "un" and t[1] == "Not":
+                        t, neg = t[2], not neg
+                    if is_target(t) and (bool(e["taken"]) != neg) is False:
+                        failed = True
+                if not failed:
+                    continue
+                reached = True
+                if p.terminal == "return":
+                    bad = "the function returns normally (path %s)" % (p.label()[:120] or "straight line")
+                elif not documented(exc, p.exc_cls):
+                    bad = "raises %s" % p.exc_cls
+            if not reached:
+                ctx.cannot_decide(rule, key, construct, "no path")
+            elif bad:
+                ctx.violation(rule, key, construct, bad + ": the ill-typed field is accepted", where=fi.where)
+            else:
+                ctx.ok(rule, key, construct)
+    ctx.floor("kind tests of the validators", total, 5)
+
+
+def _type_names(v) -> Tuple[str, ...]:
+    from .pathsim import walk
+
+    out = []
+    for x in walk(v):
+        if isinstance(x, tuple) and len(x) == 2 and x[0] in ("ext", "class") and isinstance(x[1], str):
+            out.append(x[1].split(".")[-1])
+    return tuple(sorted(set(out)))
+
+
+def show_v(v) -> str:
+    from .pathsim import show
+
+    return show(v, 3)
+
+
 def _is_values_loop_var(fi: FuncInfo, e: ast.AST) -> bool:
     """Is e a variable ranging over the values of a dictionary (for v in d.values() / for k, v in d.items())?"""
     if not isinstance(e, ast.Name):
@@ -1709,9 +1790,13 @@ def rule_raise_message_types(ctx: Ctx, rule: str = "raise-message") -> None:
     `text / x` raise TypeError while the error is being constructed, so the documented error never leaves."""
     prog = ctx.prog
 
+    str_names: Set[str] = set()  # parameters of the function being read that are annotated `str`
+
     def is_text(e: ast.AST) -> bool:
         if isinstance(e, ast.Constant):
             return isinstance(e.value, str)
+        if isinstance(e, ast.Name) and e.id in str_names:
+            return True
         if isinstance(e, ast.JoinedStr):
             return True
         if isinstance(e, ast.Call):
@@ -1720,10 +1805,25 @@ def rule_raise_message_types(ctx: Ctx, rule: str = "raise-message") -> None:
                 return is_text(f.value) or f.attr in ("format", "join")
             if isinstance(f, ast.Name) and f.id in ("str", "repr"):
                 return True
+            if isinstance(f, ast.Name) and f.id in text_funcs:
+                return True
         if isinstance(e, ast.BinOp) and isinstance(e.op, (ast.Add, ast.Mod)):
             return is_text(e.left)
         return False
 
+    # functions of the package annotated `-> str`
+    text_funcs = {fi_.name for fi_ in prog.funcs.values() if not isinstance(fi_.node, ast.Lambda) and fi_.kind == "function" and fi_.node.returns is not None and norm(fi_.node.returns) == "str"}
+    # text arithmetic anywhere (a printer that subtracts two strings fails like a message that does)
+    for fi in prog.all_functions():
+        if isinstance(fi.node, ast.Lambda) or fi.module.base == "plots":
+            continue
+        str_names.clear()
+        rebound = {t.id for st in ast.walk(fi.node) if isinstance(st, (ast.Assign, ast.AugAssign, ast.AnnAssign, ast.For)) for t in ast.walk(st.targets[0] if isinstance(st, ast.Assign) else st.target) if isinstance(t, ast.Name)}
+        str_names.update(a_.arg for a_ in fi.node.args.args + fi.node.args.kwonlyargs if a_.annotation is not None and norm(a_.annotation) == "str" and a_.arg not in rebound)
+        for x in ast.walk(fi.node):
+            if isinstance(x, ast.BinOp) and isinstance(x.op, (ast.Sub, ast.Div, ast.FloorDiv, ast.Pow, ast.MatMult)) and (is_text(x.left) or is_text(x.right)):
+                ctx.violation(rule, fi.key, "%s: text is combined with operations text has" % fi.key, "`%s` applies %s to text: TypeError when the line is reached" % (norm(x)[:80], type(x.op).__name__), where="%s:%d" % (fi.module.relpath, x.lineno))
+    str_names.clear()
     n = 0
     for fi in prog.all_functions():
         if isinstance(fi.node, ast.Lambda) or fi.module.base == "plots":
@@ -1748,3 +1848,312 @@ def rule_raise_message_types(ctx: Ctx, rule: str = "raise-message") -> None:
             else:
                 ctx.ok(rule, fi.key, construct, nontrivial=False)
     ctx.floor("raise statements examined", n, 40)
+
+
+# ------------------------------------------------------------------ calls match the signatures they reach (all properties)
+def rule_call_arity(ctx: Ctx, rule: str = "call-arity") -> None:
+    """Every call whose callee resolves to a function, method or class of the package supplies the parameters that have
+    no default, names no keyword the callee lacks and passes no more positionals than it takes: otherwise Python raises
+    TypeError at the call - an undocumented error, and only on the path that reaches the call."""
+    prog = ctx.prog
+    if _CA_CACHE.get("digest") == prog.digest:
+        for kind, a, k in _CA_CACHE["verdicts"]:
+            getattr(ctx, kind)(*a, **k)
+        ctx.floor("resolved calls into the package", _CA_CACHE["n"], 150)
+        return
+    verdicts: List[Tuple[str, tuple, dict]] = []
+
+    def sig_of(fn: ast.AST, drop_first: bool):
+        a = fn.args
+        pos = [x.arg for x in a.posonlyargs + a.args]
+        ndef = len(a.defaults)
+        required = pos[: len(pos) - ndef] if ndef else list(pos)
+        if drop_first and pos:
+            required = [r for r in required if r != pos[0]]
+            pos = pos[1:]
+        kwonly = [x.arg for x in a.kwonlyargs]
+        kwreq = [x.arg for x, d in zip(a.kwonlyargs, a.kw_defaults) if d is None]
+        return {"pos": pos, "required": required + kwreq, "names": set(pos) | set(kwonly), "vararg": a.vararg is not None, "kwarg": a.kwarg is not None, "posonly": {x.arg for x in a.posonlyargs}}
+
+    def class_sig(cname: str):
+        init = prog.resolve_method(cname, "__init__")
+        if init is not None:
+            return sig_of(init.node, True), init.key
+        ci = prog.classes.get(cname)
+        if ci is None:
+            return None, None
+        deco = [norm(d) for d in ci.node.decorator_list]
+        is_record = any(d.split("(")[0].split(".")[-1] == "dataclass" for d in deco) or any(norm(b).split(".")[-1] == "NamedTuple" for b in ci.node.bases)
+        if is_record and all(norm(b).split(".")[-1] in ("NamedTuple", "object") for b in ci.node.bases):
+            names = [f for f, _d in ci.fields]
+            req = [f for f, d in ci.fields if d is None]
+            return {"pos": names, "required": req, "names": set(names), "vararg": False, "kwarg": False, "posonly": set()}, cname
+        return None, None
+
+    n = 0
+    for fi in prog.all_functions():
+        if fi.module.base == "plots":
+            continue
+        for node in ast.walk(fi.node):
+            if not isinstance(node, ast.Call):
+                continue
+            if any(isinstance(a_, ast.Starred) for a_ in node.args) or any(k.arg is None for k in node.keywords):
+                continue
+            f = node.func
+            sig = None
+            target = None
+            if isinstance(f, ast.Name):
+                r = prog.resolve_name(fi.module, f.id)
+                shadow = not isinstance(fi.node, ast.Lambda) and f.id in {x.arg for x in fi.node.args.args}
+                if shadow:
+                    r = None
+                if r.__class__.__name__ == "FuncInfo" and r.kind == "function":
+                    sig, target = sig_of(r.node, False), r.key
+                elif r.__class__.__name__ == "ClassInfo":
+                    sig, target = class_sig(r.name)
+            elif isinstance(f, ast.Attribute) and isinstance(f.value, ast.Name):
+                base = f.value.id
+                r = prog.resolve_name(fi.module, base)
+                if r.__class__.__name__ == "ClassInfo":
+                    m = prog.resolve_method(r.name, f.attr)
+                    if m is not None and not isinstance(m.node, ast.Lambda):
+                        sig, target = sig_of(m.node, m.kind == "classmethod"), m.key
+                elif fi.cls is not None and fi.params and base == fi.params[0] and fi.kind in ("method", "property"):
+                    m = prog.resolve_method(fi.cls.name, f.attr)
+                    # an attribute of the same name assigned on the instance would shadow the method: not in this package
+                    if m is not None and m.kind in ("method", "static", "classmethod") and not isinstance(m.node, ast.Lambda):
+                        sig, target = sig_of(m.node, m.kind in ("method", "classmethod")), m.key
+                elif fi.cls is not None and fi.params and base == fi.params[0] and fi.kind == "classmethod":
+                    m = prog.resolve_method(fi.cls.name, f.attr)
+                    if m is not None and m.kind in ("static", "classmethod") and not isinstance(m.node, ast.Lambda):
+                        sig, target = sig_of(m.node, m.kind == "classmethod"), m.key
+            if sig is None:
+                continue
+            n += 1
+            construct = "%s: the call `%s` fits %s" % (fi.key, norm(node)[:60], target)
+            npos = len(node.args)
+            kws = [k.arg for k in node.keywords]
+            problem = None
+            if npos > len(sig["pos"]) and not sig["vararg"]:
+                problem = "%d positional arguments for %d parameters" % (npos, len(sig["pos"]))
+            given = set(sig["pos"][:npos]) | set(kws)
+            unknown = [k for k in kws if k not in sig["names"] or k in sig["posonly"]]
+            if problem is None and unknown and not sig["kwarg"]:
+                problem = "no parameter named %s" % unknown[0]
+            dup = [k for k in kws if k in sig["pos"][:npos]]
+            if problem is None and dup:
+                problem = "%s is given twice" % dup[0]
+            missing = [r_ for r_ in sig["required"] if r_ not in given]
+            if problem is None and missing:
+                problem = "the parameter %s has no default and is not supplied" % missing[0]
+            if problem:
+                verdicts.append(("violation", (rule, fi.key, construct, "%s: TypeError when this call is reached" % problem), {"where": "%s:%d" % (fi.module.relpath, node.lineno)}))
+            else:
+                verdicts.append(("ok", (rule, fi.key, construct), {"nontrivial": False}))
+    for kind, a, k in verdicts:
+        getattr(ctx, kind)(*a, **k)
+    _CA_CACHE.clear()
+    _CA_CACHE.update({"digest": prog.digest, "verdicts": verdicts, "n": n})
+    ctx.floor("resolved calls into the package", n, 150)
+
+
+_CA_CACHE: Dict[str, Any] = {}
+
+
+# ------------------------------------------------------------------ the validator on every single-field fault (C14)
+def rule_validator_faults(ctx: Ctx, rule: str = "validator-faults") -> None:
+    """C14's own quantifier, evaluated on the validator's source by the kernel interpreter: a valid contract dictionary
+    (both representations) passes validate_contract_dict, and every single-field deletion or change of kind - of the
+    dictionary itself, of a top-level field, of a list item, of a clause field, of a coefficient - ends in
+    ContractFormatError / ValueError.  Nothing of pacti is run: the interpreter walks the syntax tree over records
+    for dictionaries, lists, strings and numbers."""
+    from .termalg import NONE, DictV, ListV, Raised, TermAlg, num
+
+    prog = ctx.prog
+    exc = ExcTable(prog)
+    fi = prog.func("serializer.validate_contract_dict")
+    S = lambda s: ("str", s)  # noqa: E731
+
+    def clause():
+        return DictV({S("constant"): num(1), S("coefficients"): DictV({S("x"): num(2)})})
+
+    def valid(machine: bool):
+        body = (lambda: ListV([clause()])) if machine else (lambda: ListV([S("x <= 1")]))
+        return DictV({S("input_vars"): ListV([S("x")]), S("output_vars"): ListV([S("y")]), S("assumptions"): body(), S("guarantees"): body()})
+
+    OTHER = {"text": lambda: S("abc"), "number": lambda: num(3), "None": lambda: NONE, "list": lambda: ListV([]), "dict": lambda: DictV({})}
+
+    def run(d, machine: bool) -> str:
+        ta = TermAlg(prog)
+        try:
+            ta.call(fi, [d, S("c"), machine])
+            return "accepted"
+        except Raised as r:
+            return "raise " + r.cls
+
+    n = 0
+    for machine in (True, False):
+        rep = "machine" if machine else "string"
+        construct = "validate_contract_dict (%s representation): a valid dictionary is accepted" % rep
+        try:
+            out = run(valid(machine), machine)
+        except (AnalysisError, Undecidable_) as ex:
+            ctx.cannot_decide(rule, fi.key, construct, str(ex))
+            continue
+        (ctx.ok(rule, fi.key, construct) if out == "accepted" else ctx.violation(rule, fi.key, construct, "a valid dictionary gives %s" % out, where=fi.where))
+        faults = []
+        for kind in ("text", "list", "number", "None"):
+            faults.append(("the dictionary itself is a %s" % kind, OTHER[kind]()))
+        for fld in ("input_vars", "output_vars", "assumptions", "guarantees"):
+            d = valid(machine)
+            del d.d[S(fld)]
+            faults.append(("field %s missing" % fld, d))
+            for kind in ("text", "number", "None", "dict"):
+                d = valid(machine)
+                d.d[S(fld)] = OTHER[kind]()
+                faults.append(("field %s is a %s" % (fld, kind), d))
+            is_clauses = machine and fld in ("assumptions", "guarantees")
+            for kind in (("text", "number", "None", "list") if is_clauses else ("number", "None", "list", "dict")):
+                d = valid(machine)
+                d.d[S(fld)] = ListV([OTHER[kind]()])
+                faults.append(("an item of %s is a %s" % (fld, kind), d))
+            if is_clauses:
+                for ck in ("constant", "coefficients"):
+                    d = valid(machine)
+                    del d.d[S(fld)].items[0].d[S(ck)]
+                    faults.append(("a clause of %s lacks %s" % (fld, ck), d))
+                for kind in ("text", "None", "list", "dict"):
+                    d = valid(machine)
+                    d.d[S(fld)].items[0].d[S("constant")] = OTHER[kind]()
+                    faults.append(("the constant of a clause of %s is a %s" % (fld, kind), d))
+                for kind in ("text", "None", "list", "number"):
+                    d = valid(machine)
+                    d.d[S(fld)].items[0].d[S("coefficients")] = OTHER[kind]()
+                    faults.append(("the coefficients of a clause of %s are a %s" % (fld, kind), d))
+                for kind in ("text", "None", "list", "dict"):
+                    d = valid(machine)
+                    d.d[S(fld)].items[0].d[S("coefficients")].d[S("x")] = OTHER[kind]()
+                    faults.append(("a coefficient in %s is a %s" % (fld, kind), d))
+        accepted, wrong, undec = [], [], []
+        for label, d in faults:
+            n += 1
+            try:
+                out = run(d, machine)
+            except (AnalysisError, Undecidable_) as ex:
+                undec.append("%s: %s" % (label, ex))
+                continue
+            if out == "accepted":
+                accepted.append(label)
+            elif not documented(exc, out[6:]):
+                wrong.append("%s: %s" % (label, out))
+        construct = "validate_contract_dict (%s representation): each of the %d single-field faults is refused with a documented error" % (rep, len(faults))
+        if accepted or wrong:
+            ctx.violation(rule, fi.key, construct, "; ".join((["accepted: %s" % ", ".join(accepted[:4])] if accepted else []) + (["undocumented error: %s" % ", ".join(wrong[:3])] if wrong else [])), where=fi.where)
+        elif undec:
+            ctx.cannot_decide(rule, fi.key, construct, undec[0])
+        else:
+            ctx.ok(rule, fi.key, construct)
+    ctx.floor("faulted dictionaries evaluated", n, 60)
+
+
+try:
+    from .termalg import Undecidable as Undecidable_
+except ImportError:  # pragma: no cover
+    class Undecidable_(Exception):
+        pass
+
+
+# ------------------------------------------------------------------ the file reader on every single fault of the document (C14)
+def rule_reader_faults(ctx: Ctx, rule: str = "reader-faults") -> None:
+    """C14 for files: read_contracts_from_file on a well-formed document returns one contract per entry, and on every
+    single fault of the document's shape - the document is not a list, an entry is not a dictionary, an entry lacks
+    type / name / data, the type is unknown or not text - it raises ContractFormatError or ValueError.  Decided by the
+    kernel interpreter on the reader's source; the file system, the JSON parser and the three constructors are stubbed
+    (the dictionary validator is interpreted, it is part of the package)."""
+    from .termalg import NONE, DictV, ListV, Raised, TermAlg, num
+
+    prog = ctx.prog
+    exc = ExcTable(prog)
+    fi = prog.func("fileio.read_contracts_from_file")
+    S = lambda s: ("str", s)  # noqa: E731
+
+    def strings_data():
+        return DictV({S("input_vars"): ListV([S("x")]), S("output_vars"): ListV([S("y")]), S("assumptions"): ListV([S("x <= 1")]), S("guarantees"): ListV([S("y <= x")])})
+
+    def machine_data():
+        cl = lambda: DictV({S("constant"): num(1), S("coefficients"): DictV({S("x"): num(2)})})  # noqa: E731
+        return DictV({S("input_vars"): ListV([S("x")]), S("output_vars"): ListV([S("y")]), S("assumptions"): ListV([cl()]), S("guarantees"): ListV([cl()])})
+
+    def compound_data():
+        return DictV({S("input_vars"): ListV([S("x")]), S("output_vars"): ListV([S("y")]), S("assumptions"): ListV([ListV([S("x <= 1")])]), S("guarantees"): ListV([ListV([S("y <= x")])])})
+
+    from .rules_exc import written_tags as _wt
+
+    tags = sorted(_wt(prog))
+    data_for = {}
+    for t in tags:
+        data_for[t] = machine_data if t.endswith("_machine") else (compound_data if "Compound" in t else strings_data)
+
+    def entry(tag: str):
+        return DictV({S("type"): S(tag), S("name"): S("c"), S("data"): data_for[tag]()})
+
+    built: List[str] = []
+
+    def ctor(label):
+        def f(ta, pos, kw):
+            built.append(label)
+            return ("str", "<contract %s>" % label)
+
+        return f
+
+    def run(doc) -> str:
+        del built[:]
+        ta = TermAlg(prog, stubs={"PolyhedralIoContract.from_dict": ctor("from_dict"), "PolyhedralIoContract.from_strings": ctor("from_strings"), "PolyhedralIoContractCompound.from_strings": ctor("compound.from_strings")})
+        ta.ext_stubs.update({"os.path.isfile": lambda ta_, pos, kw: True, "json.load": lambda ta_, pos, kw: doc, "builtins.open": lambda ta_, pos, kw: ("str", "<file>")})
+        try:
+            r = ta.call(fi, [S("f.json")])
+            return "returns %d" % len(built)
+        except Raised as r_:
+            return "raise " + r_.cls
+
+    n = 0
+    construct = "read_contracts_from_file: a well-formed document gives one contract per entry"
+    try:
+        out = run(ListV([entry(t) for t in tags]))
+        (ctx.ok(rule, fi.key, construct) if out == "returns %d" % len(tags) else ctx.violation(rule, fi.key, construct, "a document with the %d kinds of entry %s" % (len(tags), out), where=fi.where))
+    except (AnalysisError, Undecidable_) as ex:
+        ctx.cannot_decide(rule, fi.key, construct, str(ex))
+        return
+    faults = []
+    for kind, v in (("a dictionary", lambda: DictV({S("type"): S(tags[0])})), ("text", lambda: S("abc")), ("a number", lambda: num(3)), ("null", lambda: NONE)):
+        faults.append(("the document is %s" % kind, v()))
+    for kind, v in (("a list", lambda: ListV([])), ("text", lambda: S("type name data")), ("a number", lambda: num(3)), ("null", lambda: NONE)):
+        faults.append(("an entry is %s" % kind, ListV([entry(tags[0]), v()])))
+    for k in ("type", "name", "data"):
+        e = entry(tags[0])
+        del e.d[S(k)]
+        faults.append(("an entry lacks %s" % k, ListV([e])))
+    for kind, v in (("unknown", lambda: S("SomethingElse")), ("a number", lambda: num(1)), ("null", lambda: NONE), ("a list", lambda: ListV([S(tags[0])]))):
+        e = entry(tags[0])
+        e.d[S("type")] = v()
+        faults.append(("the type of an entry is %s" % kind, ListV([e])))
+    accepted, wrong, undec = [], [], []
+    for label, doc in faults:
+        n += 1
+        try:
+            out = run(doc)
+        except (AnalysisError, Undecidable_) as ex:
+            undec.append("%s: %s" % (label, ex))
+            continue
+        if out.startswith("returns"):
+            accepted.append(label)
+        elif not documented(exc, out[6:]):
+            wrong.append("%s: %s" % (label, out))
+    construct = "read_contracts_from_file: each of the %d single faults of the document's shape is refused with a documented error" % len(faults)
+    if accepted or wrong:
+        ctx.violation(rule, fi.key, construct, "; ".join((["accepted: %s" % ", ".join(accepted[:4])] if accepted else []) + (["undocumented error: %s" % ", ".join(wrong[:4])] if wrong else [])), where=fi.where)
+    elif undec:
+        ctx.cannot_decide(rule, fi.key, construct, undec[0])
+    else:
+        ctx.ok(rule, fi.key, construct)
+    ctx.floor("faulted documents evaluated", n, 12)
